@@ -168,10 +168,21 @@ def _traces(chk: Check, n_rand, n_big):
         if len(evs) >= 40:
             flush()
     # long inputs up to the cap in RL form (TLC never builds the long sequence)
-    for i in range(n_big):
+    # ... first the strings of exactly cap-1 / cap / cap+1 bytes with every kind of ending: an isolated zero, zero runs
+    # of length 0, 1, 2 mod 255 and 256, a literal, a literal FF, a zero before a literal
+    boundary = []
+    for total_ in (CAP - 1, CAP, CAP + 1):
+        for tail in ([[0, 1]], [[0, 2]], [[0, 254]], [[0, 255]], [[0, 256]], [[0, 257]], [[0, 510]], [[0, 511]],
+                     [[7, 1]], [[255, 1]], [[255, 2]], [[0, 1], [7, 1]], [[0, 255], [255, 1]], [[7, 1], [0, 1]]):
+            tl = sum(n for _, n in tail)
+            boundary.append([[0, total_ - tl - 1], [5, 1]] + tail)
+            boundary.append([[9, 1], [0, total_ - tl - 2], [5, 1]] + tail)
+    for i in range(len(boundary) + n_big):
         rl = []
         total = 0
         target = rng.choice([1000, 4096, 8000, CAP - 1, CAP, CAP + 1])
+        if i < len(boundary):
+            rl, total = boundary[i], target
         while total < target:
             if rng.random() < 0.5:
                 n = min(target - total, rng.choice([1, 254, 255, 256, 510, 511, 1100, 3000]))
